@@ -61,7 +61,7 @@ def collect(tier, seed):
     lines = {}      # id -> (case term, kind, description)
     # A. datum reader and schema-aware deserializer: the byte strings of C06
     cases = c06.gen_cases(tier, seed)
-    step = 1 if tier != 'quick' else 7
+    step = 2 if tier != 'quick' else 7      # thorough: every second byte string of C06's thorough set
     for i, (st, bs, origin) in enumerate(cases[::step]):
         lines['d%d' % i] = ('(decode2 %s %s)' % (hx(st), hx(bs)), 'datum:' + origin, {'schema': st, 'bytes': bs.hex()})
     # A2. lengths declared by the SCHEMA (fixed sizes) reaching both decoders: above and below every limit
@@ -104,11 +104,12 @@ def collect(tier, seed):
         codec = r.choice(['deflate', 'snappy', 'bzip2', 'xz', 'zstandard'])
         data = r.choice([r.bytes(r.below(40)), varint(1 << 40) + r.bytes(4), b'\xff' * r.below(12)])
         lines['z%d' % i] = ('(codec-d %s %s)' % (codec, hx(data)), 'decompress', {'codec': codec, 'bytes': data.hex()})
-    out = {}
-    for lim in LIMITS:
-        res = fw.run_lines(exe, ['%s (measure %s)' % (cid, t[0]) for cid, t in lines.items()], extra=['max_alloc=%d' % lim], case_timeout=20)
-        out[lim] = {cid: parse(v) for cid, v in res.items()}
-    return lines, out
+    def results():
+        # one limit at a time: the observations of a limit are judged and dropped before the next is run
+        for lim in LIMITS:
+            res = fw.run_lines(exe, ['%s (measure %s)' % (cid, t[0]) for cid, t in lines.items()], extra=['max_alloc=%d' % lim], case_timeout=20)
+            yield lim, res
+    return lines, results()
 
 def contains_panic(t):
     if isinstance(t, str):
@@ -116,10 +117,11 @@ def contains_panic(t):
     return tag(t) in ('panic', 'schema-panic') or any(contains_panic(x) for x in t[1:])
 
 def judge(run, lines, out):
-    for lim, res in out.items():
+    for lim, res in out:
         for cid, (term, kind, info) in lines.items():
             run.evaluations += 1
             o = res.get(cid)
+            o = parse(o) if o is not None else None
             case = dict(info, kind=kind, max_alloc=lim)
             if o is None or tag(o) in ('timeout', 'abort', 'missing'):
                 run.fail('no-return:' + str(tag(o) if o is not None else 'none'),
